@@ -388,6 +388,15 @@ class Interp:
         if isinstance(a, SRef) and isinstance(b, SRef):
             oa, ob = a.o, b.o
             if isinstance(oa, HList) and isinstance(ob, HList):
+                va, vb = getattr(oa, "view", None), getattr(ob, "view", None)
+                if va or vb:
+                    # dict views: items/keys views compare like sets (order ignored); a values view
+                    # only equals itself; a view never equals a list
+                    if oa is ob:
+                        return True
+                    if va in ("items", "keys") and vb in ("items", "keys"):
+                        return self.set_equal(oa, ob)
+                    return False
                 return self.seq_equal(oa.items, ob.items)
             if isinstance(oa, HDict) and isinstance(ob, HDict):
                 return self.dict_equal(oa, ob)
